@@ -82,7 +82,7 @@ type keyset struct {
 	g    *gpgHome
 	keys []*key
 	ring openpgp.EntityList // all entities, with private keys
-	pub  openpgp.EntityList // the same keys, public halves only (as exported by gpg)
+	pub  openpgp.EntityList // the same keys, public halves only (Entity.Serialize -> ReadKeyRing)
 	// caps: key id -> capability letters of that (sub)key according to gpg's listing
 	caps map[uint64]string
 	// owner: key id (primary or subkey) -> key
@@ -168,14 +168,6 @@ func newKeyset() (*keyset, error) {
 		g.close()
 		return nil, fmt.Errorf("ReadKeyRing(secret export): %v", err)
 	}
-	r = g.run(tGpgOps, nil, "--export")
-	if r.rc != 0 {
-		return fail("gpg --export", r)
-	}
-	if ks.pub, err = openpgp.ReadKeyRing(bytes.NewReader(r.out)); err != nil {
-		g.close()
-		return nil, fmt.Errorf("ReadKeyRing(public export): %v", err)
-	}
 	meta := map[string][3]string{"GRSA": {"RSA", "RSA", "0"}, "GDSA": {"DSA", "ELG", "256"}, "GDS1": {"DSA", "ELG", "160"}, "GECC": {"ECDSA", "RSA", "256"}, "GEC3": {"ECDSA", "RSA", "384"}}
 	for _, e := range all {
 		for n := range e.Identities {
@@ -192,6 +184,18 @@ func newKeyset() (*keyset, error) {
 	}
 	for _, k := range ks.keys {
 		ks.ring = append(ks.ring, k.ent)
+		// public half as written by Entity.Serialize and read back
+		var pb bytes.Buffer
+		if err := k.ent.Serialize(&pb); err != nil {
+			g.close()
+			return nil, fmt.Errorf("Serialize %s: %v", k.name, err)
+		}
+		pe, err := openpgp.ReadKeyRing(bytes.NewReader(pb.Bytes()))
+		if err != nil || len(pe) != 1 {
+			g.close()
+			return nil, fmt.Errorf("ReadKeyRing(Serialize(%s)): %v", k.name, err)
+		}
+		ks.pub = append(ks.pub, pe[0])
 		ks.owner[k.ent.PrimaryKey.KeyId] = k
 		for _, s := range k.ent.Subkeys {
 			ks.owner[s.PublicKey.KeyId] = k
